@@ -416,6 +416,7 @@ class Fn:
         k = n["kind"]
         if k == "CompoundStmt":
             ks = kids(n); out = []; i = 0
+            if self.ret_mode: ks = fold_early_returns(ks)
             while i < len(ks):
                 c = ks[i]
                 if i + 1 < len(ks) and c["kind"] == "DeclStmt" and ks[i + 1]["kind"] == "WhileStmt":
@@ -604,12 +605,31 @@ def has_return(n):
     if n.get("kind") == "ReturnStmt": return True
     return any(has_return(c) for c in kids(n))
 
+def always_returns(n):
+    """does every path through n end in a return statement?"""
+    k = n.get("kind")
+    if k == "ReturnStmt": return True
+    if k == "CompoundStmt":
+        ks = fold_early_returns(kids(n)); return bool(ks) and always_returns(ks[-1])
+    if k == "IfStmt":
+        ks = kids(n); return len(ks) == 3 and always_returns(ks[1]) and always_returns(ks[2])
+    return False
+
+def fold_early_returns(ks):
+    """`if (c) { ...; return e; } rest...` (no else, the branch always returns) is `if (c) { ...; return e; } else { rest... }`: the statements after the
+    test only run when it fails.  Used for bodies that are inlined, where a return must be the last thing on its path."""
+    for i, c in enumerate(ks[:-1]):
+        if c.get("kind") == "IfStmt" and not c.get("hasInit") and not c.get("hasVar") and len(kids(c)) == 2 and always_returns(kids(c)[1]):
+            rest = {"kind": "CompoundStmt", "inner": fold_early_returns(ks[i + 1:])}
+            return ks[:i] + [{"kind": "IfStmt", "inner": [kids(c)[0], kids(c)[1], rest]}]
+    return ks
+
 def tail_returns_only(n):
     """is every return statement under n the last thing executed on its path through n?"""
     k = n.get("kind")
     if k == "ReturnStmt": return True
     if k == "CompoundStmt":
-        ks = kids(n)
+        ks = fold_early_returns(kids(n))
         return all(not has_return(c) for c in ks[:-1]) and (not ks or tail_returns_only(ks[-1]))
     if k == "IfStmt":
         ks = kids(n)
